@@ -38,11 +38,18 @@ def parseLoad : String → Option LoadKind
   | "parseDurationsUnchecked" => some .parseDurationsUnchecked | "parseOrZeroSIND" => some .parseOrZeroSIND
   | "parseOrZeroDirect" => some .parseOrZeroDirect | "zeroMeansDefault" => some .zeroMeansDefault
   | "pointerOptional" => some .pointerOptional | "mergo" => some .mergo | "custom" => some .custom | "none" => some .none
+  | "codecAlways" => some .codecAlways | "codecNonEmpty" => some .codecNonEmpty | "codecListAlways" => some .codecListAlways
+  | "codecListNonEmpty" => some .codecListNonEmpty | "codecListLenient" => some .codecListLenient
+  | "peerListStar" => some .peerListStar | "tlsPath" => some .tlsPath
+  | "emptyZeroParseDurations" => some .emptyZeroParseDurations | "copyNonEmpty" => some .copyNonEmpty
   | _ => none
 
 def parseSave : String → Option SaveKind
   | "direct" => some .direct | "durString" => some .durString | "omitIfDefault" => some .omitIfDefault
   | "omitIfDefaultDur" => some .omitIfDefaultDur | "custom" => some .custom | "none" => some .none
+  | "codecPrint" => some .codecPrint | "codecPrintNonZero" => some .codecPrintNonZero | "codecListPrint" => some .codecListPrint
+  | "codecListPrintNonEmpty" => some .codecListPrintNonEmpty | "peerListStarPrint" => some .peerListStarPrint
+  | "durSeconds" => some .durSeconds
   | _ => none
 
 def parseTy : String → Option Ty
